@@ -168,6 +168,7 @@ func build(prop string) {
 		if overlay != "" {
 			if out, err := run(overlay); err == nil {
 				astOverlay = true
+				os.Setenv("VSIM_AST", "1") // inherited by the workers: scenarios may park tasks inside rewritten critical sections
 				return
 			} else {
 				astNote += "; the build of the rewritten files failed, plain build used: " + tail(string(out), 300)
@@ -322,6 +323,9 @@ func main() {
 		rc := check(os.Args[2], os.Args[3])
 		os.Remove(binPath)
 		os.Exit(rc)
+	case "build": // development aid: build the worker for a property (rewritten files included) and keep it
+		build(os.Args[2])
+		fmt.Println(binPath, astNote)
 	case "replay":
 		if len(os.Args) < 3 {
 			die(2, "usage: vdrive replay <file>")
@@ -347,7 +351,11 @@ func main() {
 			os.Exit(2)
 		}
 		os.Remove(binPath)
-		fmt.Printf("selftest %s: %d episodes x 6 processes (GOMAXPROCS 1/4/16) identical\n", os.Args[2], n)
+		if astPoolSensitive[os.Args[2]] {
+			fmt.Printf("selftest %s: %d episodes x 8 processes identical within each group (GOMAXPROCS 1 with inserted yields x 4; GOMAXPROCS 4/16 without them x 4)\n", os.Args[2], n)
+		} else {
+			fmt.Printf("selftest %s: %d episodes x 6 processes (GOMAXPROCS 1/4/16) identical\n", os.Args[2], n)
+		}
 	default:
 		die(2, "unknown command")
 	}
@@ -378,15 +386,25 @@ func selftest(dir, prop string, seed uint64, episodes, reps int) string {
 	var fail string
 	k := 0
 	for r := 0; r < reps; r++ {
-		for _, p := range []int{1, 4, 16} {
+		ps := []int{1, 4, 16}
+		if astPoolSensitive[prop] {
+			ps = []int{1, 1, 4, 16} // two runs of the configuration the checks use
+		}
+		for _, p := range ps {
 			k++
 			out := filepath.Join(dir, fmt.Sprintf("st-%d.json", k))
 			p := p
 			wg.Add(1)
 			go func() {
 				defer wg.Done()
-				code, se := runWorker(map[string]string{"VSIM_MODE": "explore", "VSIM_PROP": prop, "VSIM_SEED": fmt.Sprint(seed), "VSIM_COUNT": fmt.Sprint(episodes),
-					"VSIM_OUT": out, "VSIM_GC_EVERY": fmt.Sprint(gcEvery(prop)), "VSIM_HASHES": "1", "VSIM_LOGS": "1", "VSIM_PROCS": fmt.Sprint(p), "VSIM_MAXVIOL": "1000"}, 10*time.Minute)
+				env := map[string]string{"VSIM_MODE": "explore", "VSIM_PROP": prop, "VSIM_SEED": fmt.Sprint(seed), "VSIM_COUNT": fmt.Sprint(episodes),
+					"VSIM_OUT": out, "VSIM_GC_EVERY": fmt.Sprint(gcEvery(prop)), "VSIM_HASHES": "1", "VSIM_LOGS": "1", "VSIM_PROCS": fmt.Sprint(p), "VSIM_MAXVIOL": "1000"}
+				if p > 1 && astPoolSensitive[prop] {
+					// with statement-level yields the number of scheduling points depends on sync.Pool hits, which depend on the
+					// number of Ps; the checks run their workers on one P. More than one P: the simulation without those yields.
+					env["VSIM_AST_OFF"] = "1"
+				}
+				code, se := runWorker(env, 10*time.Minute)
 				ru := &run{procs: p}
 				if err := readJSON(out, &ru.res); err != nil {
 					mu.Lock()
@@ -404,8 +422,17 @@ func selftest(dir, prop string, seed uint64, episodes, reps int) string {
 	if fail != "" {
 		return fail
 	}
-	base := runs[0]
-	for _, r := range runs[1:] {
+	for _, r := range runs {
+		base := r
+		for _, b := range runs {
+			if (b.procs > 1) == (r.procs > 1) || !astPoolSensitive[prop] {
+				base = b // first run of the same group (all runs form one group unless inserted yields are pool-sensitive)
+				break
+			}
+		}
+		if base == r {
+			continue
+		}
 		if len(r.res.Hashes) != len(base.res.Hashes) {
 			return fmt.Sprintf("different number of episodes: %d vs %d", len(r.res.Hashes), len(base.res.Hashes))
 		}
